@@ -93,7 +93,7 @@ fn supervise(id: &str, tier: &str, seed: u64, args: &[String]) -> i32 {
 fn main() {
 	run::install_panic_hook();
 	let args: Vec<String> = std::env::args().collect();
-	if args.len() < 3 {
+	if args.len() < 2 || (args.len() < 3 && args[1] != "c17-miri") {
 		usage();
 	}
 	if args[1] == "dbg-strings" {
@@ -119,6 +119,10 @@ fn main() {
 			eprintln!("MACHINERY: worker panicked outside a job: {}", run::take_panic().unwrap_or_default());
 			std::process::exit(3);
 		}
+		return;
+	}
+	if args[1] == "c17-miri" {
+		checks::c17::miri_pass();
 		return;
 	}
 	if args[1] == "c17-probe" {
